@@ -130,7 +130,7 @@ def tlc(module, cfg, scratch, workers=1, env=None, timeout=600, simulate=None, d
         subprocess.run(["pkill", "-f", meta], stdout=subprocess.DEVNULL, stderr=subprocess.DEVNULL)
     shutil.rmtree(meta, ignore_errors=True)
     res = TLCResult(out, rc, time.time() - t0)
-    res.rerun = lambda: tlc(module, cfg, scratch, workers, env, timeout, simulate, depth, coverage, deque, extra, spec_dir, seed_)
+    res.rerun = lambda w=None: tlc(module, cfg, scratch, w or workers, env, timeout, simulate, depth, coverage, deque, extra, spec_dir, seed_)
     return res
 
 
@@ -145,8 +145,10 @@ def must_clean(res, what):
 
 def must_violate(res, inv, what):
     """Self-test: the as-read deviation switch must make TLC report `inv`."""
-    if inv not in res.violated and not res.violated and hasattr(res, "rerun"):
-        res = res.rerun()          # neither a violation nor a usable result: once more before calling it a machinery failure
+    if inv not in res.violated and hasattr(res, "rerun"):
+        # no usable result - or, with several workers, ANOTHER of the configuration's invariants was reported first (which one TLC meets
+        # first is a race between its workers): once more with one worker, whose search order is fixed
+        res = res.rerun(1)
     if inv not in res.violated:
         tail = "\n".join(res.out.splitlines()[-30:])
         raise MachineryError("self-test: TLC did not report %s on %s\n%s" % (inv, what, tail))
